@@ -47,9 +47,12 @@ def check(run):
     run.obligation("decode correspondence: model = dagcbor.Decode (accept/reject + value) on every mutated input in the domain", dec_ok)
     gp = stats.get("go_problems") or []
     run.obligation("implementation side: Decode(Encode(v)) re-encodes to the same bytes; no decoder panic; go-ucanto's "
-                   "core/ipld/codec/cbor Encode/Decode (bindnode, [Any]) agree with the direct dagcbor path on every case", not gp)
-    for p in gp[:3]:
-        run.violation("cbor-go-roundtrip", p, dict(problem=p))
+                   "core/ipld/codec/cbor Encode/Decode (bindnode, [Any]) agree with the direct dagcbor path on every case; "
+                   "allocation-budget probes at the boundary behave as gas_cost predicts", not gp)
+    for p in gp[:6]:
+        key = ("cbor-repo-path" if "go-ucanto" in p else "cbor-budget" if p.startswith("budget probe")
+               else "cbor-go-panic" if "panics" in p else "cbor-go-roundtrip")
+        run.violation(key, p, dict(problem=p, how="harness gen CBOR -tier %s -seed %d" % (run.tier, run.seed)))
     if (not enc_ok or not dec_ok) and not run.violations:
         run.violation("correspondence-broken", "case files could not be evaluated", dict(notes=run.notes), no_input=True)
     if not env["props_ok"] or not env["coq_ok"]:
@@ -64,7 +67,7 @@ def check(run):
                         "implementation accepts; %d decode inputs were outside the model's domain (floats) and only checked for "
                         "consistency (model Unsup => implementation decoded a float or rejected)" % unsup,
                    samples=stats["samples"], values=stats["values"], decode_inputs=stats["decode_inputs"],
-                   decode_inputs_outside_domain=unsup, repo_path_checks=stats.get('repo_path_checks', 0),
+                   decode_inputs_outside_domain=unsup, repo_path_checks=stats.get('repo_path_checks', 0), budget_probes=stats.get('budget_probes', []),
                    kind_histogram=stats["kind_histogram"], depth_histogram=stats["depth_histogram"],
                    encoded_size_histogram=stats["encoded_size_histogram"], int_classes=stats["int_classes"],
                    link_kinds=stats["link_kinds"], maps_total=stats["maps_total"],
@@ -74,8 +77,9 @@ def check(run):
     run.assumptions += ["go-ipld-prime basicnode builders / ipld.Encode / ipld.Decode as the observed implementation "
                         "(go-ucanto calls the same dagcbor.Encode/Decode through bindnode)",
                         "harness rendering of nodes as Gallina terms (ipldToCoq) and of bytes (pk / hx)",
-                        "floats are outside the model (ucanto never emits them); allocation budget and 32 MiB string limit "
-                        "are modelled but only exercised by declared-length inputs, not by >10 MiB payloads"]
+                        "floats are outside the model (ucanto never emits them)",
+                        "allocation budget: inputs of 10 MiB cannot be evaluated in Coq; the budget probes compare dagcbor.Decode with a "
+                        "Go transcription (goGasCost) of the model's gas_cost, not with the Coq term itself"]
 
 
 def replay(path):
